@@ -12,6 +12,15 @@
 (e) dual-map pairing in the in-memory stores: every write P[a]=b of the
     namespace->prefix dict is paired in the same block with N[b]=a of the
     prefix->namespace dict; Memory.bind and SimpleMemory.bind are the same code.
+(k) a looked-up prefix is compared with None, never truth-tested ('' is a prefix) - all stores, the manager, serializers.
+(l) every store's bind(override=False) writes only behind a test of the existing bindings of both prefix and namespace.
+(m) a memoised qname is validated against the (shared) store before the membership test that returns it.
+(n) a Dataset/ConjunctiveGraph wrapped around another graph's store gets that graph's namespace manager (package-wide).
+(o) a fixed-namespace shortcut (startswith(XMLNS)) cuts the rest by position and requires is_ncname(rest).
+(p) constant names written through XMLWriter belong to a namespace the class declares or XMLWriter writes with a built-in prefix.
+(q) no XML output template of a serializer spells a fixed prefix other than xml/xmlns.
+(r) a Store.bind that takes a prefix away from its namespace is followed by a rebuild of the longest-namespace trie.
+(s) the three writers of N3 prefixed names (turtle, longturtle getQName, normalizeUri) sanitise the local part alike.
 """
 from __future__ import annotations
 
@@ -511,6 +520,643 @@ def run(repo: Repo, rep: Report) -> None:  # noqa: F811
             rep.ob("C17.j-prefix-registered-for-every-non-verb-term", mod, cname + ".preprocessTriple", "continue @%s" % norm(mod.parent.get(id(c)).test if isinstance(mod.parent.get(id(c)), ast.If) else c)[:60], guarded,
                    "only in predicate position" if guarded else
                    "the prefix registration is skipped for subjects and objects too: a graph that uses rdf:type as subject or object (`ex:kind rdfs:subPropertyOf rdf:type`) is written with `rdf:type` but without a PREFIX rdf: line", node=c)
+
+
+_run_base3 = run
+
+
+# ======================================================================================================================
+# rules k - s: one structural necessary condition per defect repaired by the audit round (F90, F91, F97, F98, F164-F169)
+# ======================================================================================================================
+def _store_classes(repo: Repo) -> list[tuple[str, str, "ast.ClassDef"]]:
+    """(module name, class name, ClassDef) of every Store subclass defined in the package"""
+    out = []
+    for full in sorted(repo.typed.subclasses("rdflib.store.Store")):
+        mname, _, cname = full.rpartition(".")
+        mod = repo.modules.get(mname)
+        if mod is not None and isinstance(mod.defs.get(cname), ast.ClassDef):
+            out.append((mname, cname, mod.defs[cname]))
+    if len(out) < 4:
+        raise AnalysisError("fewer than 4 Store subclasses resolved (typed facts lost?)")
+    return out
+
+
+def _discover_memos(ns) -> set[str]:
+    """the qname memo attributes of NamespaceManager: dict attributes written `self.M[<IRI parameter>] = (p, n, l)`"""
+    memos = set()
+    for mname, m in ns.methods("NamespaceManager").items():
+        params = [a.arg for a in m.args.args[1:]]
+        for n in own_nodes(m):
+            if isinstance(n, ast.Assign):
+                for t in n.targets:
+                    if isinstance(t, ast.Subscript) and _self_attr(t.value) and isinstance(t.slice, ast.Name) and params \
+                            and t.slice.id == params[0] and isinstance(n.value, ast.Tuple):
+                        memos.add(_self_attr(t.value))
+    if len(memos) < 2:
+        raise AnalysisError("expected two qname memo dicts in NamespaceManager, discovered %s" % sorted(memos))
+    return memos
+
+
+def rule_k_prefix_identity(repo: Repo, rep: Report) -> None:
+    """(k) '' is a prefix: the result of a namespace->prefix lookup is compared with None, never truth-tested"""
+    from vlib import truthy
+
+    RID = "C17.k-prefix-lookup-decided-by-identity"
+    rep.rule(RID,
+             "the value of a namespace->prefix lookup (Store.prefix() of any store, a read of the table a store's own prefix() reads, _coalesce() of such, "
+             "or a local assigned from one) says 'this namespace has no prefix' only by being None: it is never truth-tested (if p / not p / p and .. / p or ..). "
+             "'' is the empty prefix: after bind('', N), a truth test takes N for unbound - bind('p', N, override=True) leaves '' -> N behind (N listed under two "
+             "prefixes), compute_qname(N) raises instead of answering ':'", floor=10)
+    typed = repo.typed
+    stores = _store_classes(repo)
+    # the namespace->prefix table of each store class: what its prefix() reads with .get()/[...] directly on self.<attr>
+    tables: dict[tuple[str, str], set[str]] = {}
+    for mname, cname, cdef in stores:
+        mod = repo.mod(mname)
+        if mod.has(cname + ".prefix"):
+            f = mod.func(cname + ".prefix")
+            t = set()
+            for n in own_nodes(f):
+                if isinstance(n, ast.Call) and isinstance(n.func, ast.Attribute) and n.func.attr == "get" and _self_attr(n.func.value):
+                    t.add(_self_attr(n.func.value))
+                if isinstance(n, ast.Subscript) and isinstance(n.ctx, ast.Load) and _self_attr(n.value):
+                    t.add(_self_attr(n.value))
+            tables[(mname, cname)] = t
+    store_mods = {m for m, _, _ in stores}
+    scope = sorted(store_mods | {"rdflib.namespace"} | {m for m in repo.modules if m.startswith("rdflib.plugins.serializers")})
+    for mname in scope:
+        mod = repo.mod(mname)
+        for q, fn in mod.functions():
+            if "." in q and isinstance(mod.defs.get(q.rsplit(".", 1)[0]), (ast.FunctionDef, ast.AsyncFunctionDef)):
+                continue  # nested defs are walked with their parent
+            cls = q.split(".")[0] if "." in q else ""
+            tabs = tables.get((mname, cls), set())
+            in_binding_class = (mname, cls) in tables or (mname == "rdflib.namespace" and cls == "NamespaceManager")
+
+            def is_lookup(e: ast.AST) -> bool:
+                if not isinstance(e, (ast.Call, ast.Subscript)):
+                    return False
+                if isinstance(e, ast.Subscript):
+                    return isinstance(e.ctx, ast.Load) and _self_attr(e.value) in tabs
+                cal = typed.callees(mname, e)
+                if any(c.endswith(".prefix") and typed.is_subclass(c.rsplit(".", 1)[0], "rdflib.store.Store") for c in cal):
+                    return True
+                if isinstance(e.func, ast.Attribute):
+                    if e.func.attr == "prefix" and len(e.args) == 1 and not cal and in_binding_class:
+                        return True  # unresolved (untyped receiver) inside a store / the manager
+                    if e.func.attr == "get" and _self_attr(e.func.value) in tabs:
+                        return True
+                return False
+
+            if not any(is_lookup(n) for n in own_nodes(fn, include_nested=True)):
+                continue
+            rep.analysed("%s:%s" % (mod.rel, q))
+            derived: set[str] = set()
+            pairs = [(t, v) for t, v in _assignments_nested(fn)]
+            changed = True
+
+            def valued(e: ast.AST) -> bool:
+                """the expression IS a looked-up prefix (not merely computed from one)"""
+                if is_lookup(e):
+                    return True
+                if isinstance(e, ast.Name):
+                    return e.id in derived
+                if isinstance(e, ast.Call) and isinstance(e.func, ast.Name) and e.func.id == "_coalesce":
+                    return any(valued(a) for a in e.args)
+                if isinstance(e, ast.IfExp):
+                    return valued(e.body) or valued(e.orelse)
+                return False
+
+            while changed:
+                changed = False
+                for t, v in pairs:
+                    if isinstance(t, ast.Name) and t.id not in derived and valued(v):
+                        derived.add(t.id)
+                        changed = True
+            nonec = truthy.none_constants(mod)
+            for n in own_nodes(fn, include_nested=True):
+                if isinstance(n, ast.Compare) and len(n.ops) == 1 and isinstance(n.ops[0], (ast.Is, ast.IsNot, ast.Eq, ast.NotEq)):
+                    l, r = n.left, n.comparators[0]
+                    other = l if truthy._is_none(r, nonec) else (r if truthy._is_none(l, nonec) else None)
+                    if other is not None and valued(other):
+                        rep.ob(RID, mod, q, n, True, "bound-ness of the looked-up prefix decided by identity with None", node=n)
+            seen: set[int] = set()
+            for e, owner, kind in truthy.bool_contexts(fn):
+                if id(e) in seen or isinstance(e, (ast.Compare, ast.Constant)):
+                    continue
+                seen.add(id(e))
+                if valued(e):
+                    ctx = norm(owner.test) if hasattr(owner, "test") else norm(owner)
+                    rep.ob(RID, mod, q, "%s [in %s: %s]" % (norm(e), kind, ctx[:100]), False,
+                           "the looked-up prefix is truth-tested: the empty prefix '' (a namespace bound with bind('', N)) is taken for 'no prefix'", node=e)
+
+
+def _assignments_nested(fn: ast.AST):
+    for n in own_nodes(fn, include_nested=True):
+        if isinstance(n, ast.Assign):
+            for t in n.targets:
+                yield t, n.value
+        elif isinstance(n, ast.AnnAssign) and n.value is not None:
+            yield n.target, n.value
+        elif isinstance(n, ast.NamedExpr):
+            yield n.target, n.value
+
+
+def rule_l_override_false(repo: Repo, rep: Report) -> None:
+    """(l) bind(.., override=False) writes only a pair whose prefix and namespace are both free"""
+    from vlib import h_c17 as H
+
+    RID = "C17.l-bind-without-override-writes-only-a-free-pair"
+    rep.rule(RID,
+             "in every Store subclass whose bind(prefix, namespace, override) writes its own binding table(s): with override false, each table write is reached only "
+             "through a test that override does not decide and that looks at the existing binding of BOTH the prefix and the namespace. Otherwise bind('q', N, "
+             "override=False) while p -> N exists (NamespaceManager(bind_namespaces=..) over a store that has user bindings does this) leaves N under two prefixes, "
+             "or gives an existing prefix another namespace", floor=9)
+    for mname, cname, cdef in _store_classes(repo):
+        mod = repo.mod(mname)
+        if not mod.has(cname + ".bind"):
+            continue
+        fn = mod.func(cname + ".bind")
+        ps = H.params_of(fn)
+        if "override" not in ps or len(ps) < 3:
+            continue
+        writes = [n for n in own_nodes(fn) if isinstance(n, ast.Assign) and any(isinstance(t, ast.Subscript) and _self_attr(t.value) for t in n.targets)]
+        if not writes:
+            continue  # delegates to a wrapped store
+        rep.analysed("%s:%s.bind" % (mod.rel, cname))
+        g = CFG(fn)
+        env = {"override": False}
+        p_prefix, p_ns = ps[1], ps[2]
+        guards = []
+        for t in H.undecided_tests(g, env):
+            cl = H.closure_names(fn, g.nodes[t].ast.test)
+            if p_prefix in cl and p_ns in cl:
+                guards.append(t)
+        free = H.reach_under(g, env, avoid=guards)
+        live = H.reach_under(g, env)
+        for w in writes:
+            wn = g.node_of(w, mod)
+            if wn not in live:
+                rep.ob(RID, mod, cname + ".bind", w, True, "not executed when override is false", node=w)
+                continue
+            ok = wn not in free
+            rep.ob(RID, mod, cname + ".bind", w, ok,
+                   "with override false, reached only through a test of the existing bindings of both %s and %s" % (p_prefix, p_ns) if ok else
+                   "with override false this write is reached without any test of whether %s and %s are free: an existing binding is overwritten / the namespace "
+                   "ends up under two prefixes" % (p_prefix, p_ns), node=w)
+
+
+def rule_m_memo_validated(repo: Repo, rep: Report) -> None:
+    """(m) a memoised qname is checked against the store before it is used"""
+    RID = "C17.m-memo-checked-against-store-before-use"
+    rep.rule(RID,
+             "the bindings live in the store, which other graphs (other NamespaceManagers) share and which can be bound directly: every membership test `iri in "
+             "self.<memo>` that decides whether a memoised (prefix, namespace, name) is returned is preceded on every path by a validation of that memo's entry for the "
+             "same IRI - an `if` that compares store.namespace(entry prefix) / store.prefix(entry namespace) with the entry and resets both memos (inline or in a "
+             "self-method given the entry). Otherwise g1.qname(N+'x') -> 'p:x'; g2 (same store) bind('p', M, replace=True); g1.qname(N+'x') still answers 'p:x', "
+             "which now expands to M+'x'", floor=2)
+    ns = repo.mod("rdflib.namespace")
+    typed = repo.typed
+    methods = ns.methods("NamespaceManager")
+    memos = _discover_memos(ns)
+
+    def store_lookup(e: ast.AST) -> bool:
+        return isinstance(e, ast.Call) and any(
+            (c.endswith(".namespace") or c.endswith(".prefix")) and typed.is_subclass(c.rsplit(".", 1)[0], "rdflib.store.Store") for c in typed.callees(ns.name, e))
+
+    def validating_if(st: ast.AST, about: set[str]) -> bool:
+        """`if <.. store lookup of a part of X .. compared ..>: reset every memo` with X among the names `about`"""
+        if not isinstance(st, ast.If):
+            return False
+        looks = [c for c in ast.walk(st.test) if store_lookup(c) and any(isinstance(a, ast.Subscript) and isinstance(a.value, ast.Name) and a.value.id in about
+                                                                          for arg in c.args for a in ast.walk(arg))]
+        if not looks or not any(isinstance(c, ast.Compare) and any(l is x for l in looks for x in ast.walk(c)) for c in ast.walk(st.test)):
+            return False
+        got = set()
+        for s in st.body:
+            got |= _resets_in(s, memos)
+        return got == memos
+
+    validators: dict[str, str] = {}  # method -> the parameter that carries the entry
+    for mname, m in methods.items():
+        ps = [a.arg for a in m.args.args[1:]]
+        for st in own_nodes(m):
+            for p in ps:
+                if validating_if(st, {p}):
+                    validators[mname] = p
+    n_tests = 0
+    for mname, m in methods.items():
+        tests = [c for c in own_nodes(m) if isinstance(c, ast.Compare) and len(c.ops) == 1 and isinstance(c.ops[0], (ast.In, ast.NotIn))
+                 and _self_attr(c.comparators[0]) in memos]
+        if not tests:
+            continue
+        g = CFG(m)
+        for c in tests:
+            n_tests += 1
+            memo = _self_attr(c.comparators[0])
+            key = norm(c.left)
+
+            def entry_expr(e: ast.AST) -> bool:
+                """self.<memo>.get(key) / self.<memo>[key]"""
+                if isinstance(e, ast.Call) and isinstance(e.func, ast.Attribute) and e.func.attr == "get" and _self_attr(e.func.value) == memo and e.args:
+                    return norm(e.args[0]) == key
+                return isinstance(e, ast.Subscript) and _self_attr(e.value) == memo and norm(e.slice) == key
+
+            entry_names = {t.id for t, v in _assignments_nested(m) if isinstance(t, ast.Name) and entry_expr(v)}
+            vnodes = set()
+            for nd in g.nodes:
+                if nd.ast is None or nd.kind != "stmt":
+                    if nd.ast is not None and nd.kind == "test" and validating_if(nd.ast, entry_names):
+                        vnodes.add(nd.id)
+                    continue
+                for x in ast.walk(nd.ast):
+                    if isinstance(x, ast.Call) and isinstance(x.func, ast.Attribute) and isinstance(x.func.value, ast.Name) and x.func.value.id == "self" \
+                            and x.func.attr in validators and any(entry_expr(a) or (isinstance(a, ast.Name) and a.id in entry_names) for a in x.args):
+                        vnodes.add(nd.id)
+            cn = g.node_of(c, ns)
+            ok = bool(vnodes) and cn not in vnodes and g.must_pass_before(cn, vnodes)
+            rep.ob(RID, ns, "NamespaceManager." + mname, c, ok,
+                   "the entry of %s for %s is checked against the store on every path to this test" % (memo, key) if ok else
+                   "the memoised qname in %s is used without being checked against the store: a prefix rebound through another graph on the same store (or through "
+                   "the store) is still answered for the old namespace" % memo, node=c)
+    if n_tests == 0:
+        raise AnalysisError("no `iri in self.<memo>` test found in NamespaceManager")
+
+
+def rule_n_wrapper_shares_manager(repo: Repo, rep: Report) -> None:
+    """(n) a Dataset/ConjunctiveGraph wrapped around another graph's store uses that graph's namespace manager"""
+    RID = "C17.n-wrapper-over-a-graphs-store-shares-its-manager"
+    rep.rule(RID,
+             "package-wide: a ConjunctiveGraph/Dataset constructed over `<g>.store` of another graph g (a parser wrapping its target) is given g's namespace manager "
+             "(`w.namespace_manager = g.namespace_manager` on every path after the construction, or the namespace_manager= argument). A wrapper left with a manager "
+             "of its own creates it on first use (get_context(), bind()) and that binds the ~30 default prefixes with override into the shared store: g.bind('dct', "
+             "DCTERMS); g.parse(quads) -> 'dct' is gone, DCTERMS is now 'dcterms', behind g's qname memo", floor=5)
+    typed = repo.typed
+    n_inst = 0
+    for mname, mod in repo.modules.items():
+        for q, fn in mod.functions():
+            g = None
+            for c in own_nodes(fn):
+                if not isinstance(c, ast.Call):
+                    continue
+                cal = typed.callees(mname, c)
+                if not any(x.endswith(".__init__") and typed.is_subclass(x[: -len(".__init__")], "rdflib.graph.ConjunctiveGraph") for x in cal):
+                    continue
+                store = next((k.value for k in c.keywords if k.arg == "store"), c.args[0] if c.args else None)
+                if not (isinstance(store, ast.Attribute) and store.attr == "store"):
+                    continue
+                owner = store.value
+                if isinstance(owner, ast.Name) and owner.id == "self":
+                    continue  # a view a graph makes of its own store: rule g
+                tf = typed.type_of(mname, owner)
+                if tf is None or not any(typed.is_subclass(i, "rdflib.graph.Graph") for i in tf.items):
+                    continue
+                n_inst += 1
+                rep.analysed("%s:%s" % (mod.rel, q))
+                want = norm(owner) + ".namespace_manager"
+                if any(k.arg == "namespace_manager" and norm(k.value) == want for k in c.keywords):
+                    rep.ob(RID, mod, q, c, True, "constructed with the target's namespace manager", node=c)
+                    continue
+                # the name(s) the wrapper is assigned to
+                par = mod.parent.get(id(c))
+                tnames = []
+                if isinstance(par, ast.Assign) and par.value is c:
+                    tnames = [norm(t) for t in par.targets]
+                elif isinstance(par, ast.AnnAssign) and par.value is c:
+                    tnames = [norm(par.target)]
+                if g is None:
+                    g = CFG(fn)
+                shares = set()
+                for nd in g.nodes:
+                    st = nd.ast
+                    if nd.kind == "stmt" and isinstance(st, ast.Assign) and norm(st.value) == want and any(
+                            isinstance(t, ast.Attribute) and t.attr == "namespace_manager" and norm(t.value) in tnames for t in st.targets):
+                        shares.add(nd.id)
+                ok = bool(shares) and g.must_pass_after(g.node_of(c, mod), shares, skip_exc=True)
+                rep.ob(RID, mod, q, c, ok,
+                       "followed on every path by %s.namespace_manager = %s" % ((tnames or ["?"])[0], want) if ok else
+                       "the wrapper keeps a namespace manager of its own over the store of %s: its first use binds the default prefixes over the user's bindings "
+                       "in the shared store" % norm(owner), node=c)
+    if n_inst == 0:
+        raise AnalysisError("no ConjunctiveGraph/Dataset wrapper over another graph's store found (typed resolution lost?)")
+
+
+def _ns_shortcuts(repo: Repo, mod, fn: ast.AST):
+    """`if U.startswith(C) ..: return <.. U ..>` with U a parameter and C a module-level / imported constant: a fixed-namespace
+    shortcut of a function that splits or compacts an IRI.  yields (if-node, U, C-name, return-node)"""
+    from vlib import h_c17 as H
+
+    ps = set(H.params_of(fn))
+    local = {nm for t, _ in H.assignments(fn) for nm in H.target_names(t)} | {
+        nm for n in own_nodes(fn) if isinstance(n, (ast.For, ast.comprehension)) for nm in H.target_names(n.target)}
+    for st in own_nodes(fn):
+        if not isinstance(st, ast.If):
+            continue
+        for cj in H.conjuncts(st.test):
+            if isinstance(cj, ast.Call) and isinstance(cj.func, ast.Attribute) and cj.func.attr == "startswith" and isinstance(cj.func.value, ast.Name) \
+                    and cj.func.value.id in ps and len(cj.args) == 1 and isinstance(cj.args[0], ast.Name) and cj.args[0].id not in local | ps \
+                    and H.resolve_name(repo, mod, cj.args[0].id) is not None:
+                u, cn = cj.func.value.id, cj.args[0].id
+                for r in st.body:
+                    if isinstance(r, ast.Return) and r.value is not None and u in H.names_in(r.value):
+                        yield st, u, cn, r
+
+
+def _rest_slice(e: ast.AST, u: str, cn: str) -> bool:
+    """U[len(C):]"""
+    return (isinstance(e, ast.Subscript) and isinstance(e.value, ast.Name) and e.value.id == u and isinstance(e.slice, ast.Slice)
+            and e.slice.upper is None and e.slice.step is None and e.slice.lower is not None and norm(e.slice.lower) == "len(%s)" % cn)
+
+
+def rule_o_shortcut(repo: Repo, rep: Report) -> None:
+    """(o) a fixed-namespace shortcut cuts the local part by position and checks that it is a name"""
+    from vlib import h_c17 as H
+
+    RID = "C17.o-fixed-namespace-shortcut-checks-the-rest"
+    rep.rule(RID,
+             "in rdflib.namespace and the serializers: a shortcut `if iri.startswith(NS) ..: return <NS / its prefix, rest>` for a fixed namespace NS takes the rest "
+             "by position (iri[len(NS):], not iri.split(NS)[1], which stops at a second occurrence of NS) and is taken only if is_ncname(rest). Otherwise every IRI "
+             "that merely starts with the XML namespace IRI is compacted: split_uri(XMLNS + '#x') -> (XMLNS, '#x') -> 'xml:#x', which is no prefixed name and does "
+             "not expand back", floor=1)
+    n = 0
+    for mname in sorted(m for m in repo.modules if m == "rdflib.namespace" or m.startswith("rdflib.plugins.serializers")):
+        mod = repo.mod(mname)
+        for q, fn in mod.functions():
+            for st, u, cn, r in _ns_shortcuts(repo, mod, fn):
+                n += 1
+                rep.analysed("%s:%s" % (mod.rel, q))
+                uses = [x for x in ast.walk(r.value) if isinstance(x, ast.Name) and x.id == u]
+                by_pos = all(_rest_slice(mod.parent.get(id(x)), u, cn) for x in uses)
+                checked = any(isinstance(cj, ast.Call) and isinstance(cj.func, ast.Name) and cj.func.id == "is_ncname" and len(cj.args) == 1
+                              and _rest_slice(cj.args[0], u, cn) for cj in H.conjuncts(st.test))
+                ok = by_pos and checked
+                why = []
+                if not by_pos:
+                    why.append("the local part is not %s[len(%s):] (a split at the namespace IRI stops at its second occurrence)" % (u, cn))
+                if not checked:
+                    why.append("the shortcut is taken without is_ncname(%s[len(%s):]): any IRI that starts with the namespace IRI is compacted, e.g. %s + '#x'" % (u, cn, cn))
+                rep.ob(RID, mod, q, st.test, ok, "rest cut by position and checked to be a name" if ok else "; ".join(why), node=st)
+    if n == 0:
+        raise AnalysisError("no fixed-namespace shortcut found in rdflib.namespace / serializers")
+
+
+def rule_p_xml_names_declared(repo: Repo, rep: Report) -> None:
+    """(p) a constant name written through XMLWriter belongs to a namespace that is declared up-front or built into XML"""
+    from vlib import h_c17 as H
+
+    RID = "C17.p-xmlwriter-names-declared-or-built-in"
+    rep.rule(RID,
+             "every serializer class that writes through XMLWriter: the namespace of each CONSTANT element/attribute name it passes to push/attribute/element is one "
+             "the class declares before (registered from nm.compute_qname_strict(<constant>) into the xmlns table, or given as extra_ns), or the XML namespace "
+             "provided XMLWriter.qname answers names of it with the built-in prefix xml without asking the namespace manager. A name of any other namespace gets "
+             "whatever prefix the manager has or generates at that moment - for xml:lang / xml:base after `bind('xml', other, replace=True)` a generated nsN that "
+             "no xmlns attribute declares", floor=20)
+    typed = repo.typed
+    WR = "rdflib.plugins.serializers.xmlwriter.XMLWriter"
+    xw = repo.mod("rdflib.plugins.serializers.xmlwriter")
+    nsmod = repo.mod("rdflib.namespace")
+    xmlns = H.const_string(repo, nsmod, ast.Name(id="XMLNS", ctx=ast.Load()))
+    if not xmlns:
+        raise AnalysisError("rdflib.namespace.XMLNS is not a constant any more")
+    # built in: XMLWriter.qname has a checked shortcut for a constant that is the XML namespace
+    builtin = set()
+    qn = xw.func("XMLWriter.qname")
+    for st, u, cn, r in _ns_shortcuts(repo, xw, qn):
+        if H.namespace_of_container(repo, xw, cn) == xmlns and not any(isinstance(x, ast.Attribute) and _self_attr(x) for x in ast.walk(r.value)):
+            builtin.add(xmlns)
+    n_cls = 0
+    for mname in sorted(m for m in repo.modules if m.startswith("rdflib.plugins.serializers")):
+        mod = repo.mod(mname)
+        for cname, cdef in [(k, v) for k, v in mod.defs.items() if isinstance(v, ast.ClassDef) and "." not in k]:
+            meths = mod.methods(cname)
+            ctor = [c for m in meths.values() for c in own_nodes(m) if isinstance(c, ast.Call) and any(x == WR + ".__init__" for x in typed.callees(mname, c))]
+            if not ctor:
+                continue
+            n_cls += 1
+            declared = set(builtin)
+            for c in ctor:
+                for k in c.keywords:
+                    if k.arg == "extra_ns" and isinstance(k.value, ast.Dict):
+                        for v in k.value.values:
+                            s = H.const_string(repo, mod, v)
+                            if s:
+                                declared.add(s)
+            known = set(declared) | {xmlns}
+            for m in meths.values():
+                for c in own_nodes(m):
+                    if isinstance(c, ast.Call) and isinstance(c.func, ast.Attribute) and c.func.attr == "compute_qname_strict" and c.args:
+                        s = H.constant_iri_namespace(repo, mod, c.args[0], known)
+                        par = mod.parent.get(id(c))
+                        if s is not None and isinstance(par, ast.Assign):
+                            declared.add(s)
+            for mn, m in meths.items():
+                rep.analysed("%s:%s.%s" % (mod.rel, cname, mn))
+                for c in own_nodes(m):
+                    if not (isinstance(c, ast.Call) and any(x in (WR + ".push", WR + ".attribute", WR + ".element") for x in typed.callees(mname, c)) and c.args):
+                        continue
+                    names = [c.args[0]]
+                    for k in c.keywords:
+                        if k.arg == "attributes" and isinstance(k.value, ast.Dict):
+                            names.extend(x for x in k.value.keys if x is not None)
+                    for e in names:
+                        s = H.constant_iri_namespace(repo, mod, e, known | declared)
+                        if s is None:
+                            continue  # a name taken from the graph: declared by the loops over the predicates / types
+                        ok = s in declared
+                        rep.ob(RID, mod, "%s.%s" % (cname, mn), c, ok,
+                               "namespace %s is declared by the class / built into XML" % s if ok else
+                               "%s is a name of %s, which the class never declares and XMLWriter.qname does not write with a built-in prefix: it is written with the "
+                               "prefix the namespace manager has or generates for that namespace at that moment, without an xmlns declaration" % (norm(e), s), node=c)
+    if n_cls < 2:
+        raise AnalysisError("fewer than two serializer classes constructing an XMLWriter found")
+
+
+def rule_q_no_hardwired_prefix(repo: Repo, rep: Report) -> None:
+    """(q) XML output templates carry no hard-wired prefix of a namespace the graph can bind otherwise"""
+    import re
+
+    RID = "C17.q-no-hard-wired-prefix-in-xml-templates"
+    rep.rule(RID,
+             "serializers: a string template does not spell out a prefixed XML name (`<p:local`, ` p:local=`) with a fixed prefix p other than the built-in xml / "
+             "xmlns: the prefix has to be the one the bindings give for the namespace at that moment (a %s filled from compute_qname_strict). A fixed 'rdf:' is only "
+             "right while rdf is bound to the RDF namespace - g.bind('rdf', other, replace=True); g.serialize(format='xml') then cannot be written correctly "
+             "(it failed with a bare AssertionError)", floor=3)
+    pat = re.compile(r"(?:</?|\s)([A-Za-z_][\w.\-]*):[A-Za-z_][\w.\-]*(?=[\s=>/]|$)")
+    for mname in sorted(m for m in repo.modules if m.startswith("rdflib.plugins.serializers")):
+        mod = repo.mod(mname)
+        for q, fn in mod.functions():
+            doc = [s.value for s in fn.body[:1] if isinstance(s, ast.Expr) and isinstance(s.value, ast.Constant)]
+            for n in own_nodes(fn):
+                if not (isinstance(n, ast.Constant) and isinstance(n.value, str)) or any(n is d for d in doc):
+                    continue
+                par = mod.parent.get(id(n))
+                if isinstance(par, ast.Expr):
+                    continue  # a bare string statement
+                for m in pat.finditer(n.value):
+                    ok = m.group(1) in ("xml", "xmlns")
+                    rep.ob(RID, mod, q, n, ok, "built-in prefix %s" % m.group(1) if ok else
+                           "the template writes the fixed prefix %r: it is the right one only while the graph binds %r to the namespace meant here" % (m.group(1), m.group(1)), node=n)
+
+
+def rule_r_unbinding_rebuilds_trie(repo: Repo, rep: Report) -> None:
+    """(r) taking a prefix away from a namespace rebuilds the longest-namespace trie"""
+    RID = "C17.r-unbinding-a-namespace-rebuilds-the-trie"
+    rep.rule(RID,
+             "NamespaceManager: a call that reaches Store.bind for a prefix P, made under a test that P's current namespace (a value of store.namespace(P)) differs from "
+             "the new one, leaves the old namespace without a prefix; on every path after it the trie compute_qname takes the longest matching namespace from is rebuilt "
+             "(all trie attributes reset, directly or by a self-method). A trie that still holds the old namespace makes it win over a shorter bound one: bind('a', "
+             "'http://e/'); bind('b', 'http://e/x/'); bind('b', 'http://o/', replace=True); curie('http://e/x/y', generate=False) -> KeyError instead of 'a:x/y'", floor=1)
+    ns = repo.mod("rdflib.namespace")
+    typed = repo.typed
+    methods = ns.methods("NamespaceManager")
+    trie_fns = {"insert_trie", "insert_strie", "get_longest_namespace"}
+    tries = set()
+    for m in methods.values():
+        for c in own_nodes(m):
+            if isinstance(c, ast.Call) and isinstance(c.func, ast.Name) and c.func.id in trie_fns:
+                for a in c.args:
+                    base = a.value if isinstance(a, ast.Subscript) else a
+                    if _self_attr(base):
+                        tries.add(_self_attr(base))
+    if not tries:
+        raise AnalysisError("no trie attribute of NamespaceManager discovered")
+
+    def rebuilds(stmts) -> set[str]:
+        got = set()
+        for s in stmts:
+            got |= _resets_in(s, tries)
+        return got
+
+    rebuilders = {mn for mn, m in methods.items() if mn != "__init__" and rebuilds([s for s in own_nodes(m) if isinstance(s, ast.stmt)]) == tries}
+    binders = {mn for mn, m in methods.items() if any(
+        isinstance(c, ast.Call) and any(x.endswith(".bind") and typed.is_subclass(x.rsplit(".", 1)[0], "rdflib.store.Store") for x in typed.callees(ns.name, c))
+        for c in own_nodes(m))}
+    if not binders:
+        raise AnalysisError("no NamespaceManager method calls Store.bind")
+    n = 0
+    for mn, m in methods.items():
+        g = None
+        looked = {}  # local name -> prefix expression whose namespace it holds
+        for t, v in _assignments_nested(m):
+            if isinstance(t, ast.Name):
+                for c in ast.walk(v):
+                    if isinstance(c, ast.Call) and c.args and any(x.endswith(".namespace") and typed.is_subclass(x.rsplit(".", 1)[0], "rdflib.store.Store")
+                                                                  for x in typed.callees(ns.name, c)):
+                        looked.setdefault(t.id, set()).add(norm(c.args[0]))
+        for c in own_nodes(m):
+            if not (isinstance(c, ast.Call) and isinstance(c.func, ast.Attribute) and isinstance(c.func.value, ast.Name) and c.func.value.id == "self"
+                    and c.func.attr in binders and c.args):
+                continue
+            p = norm(c.args[0])
+            from vlib import h_c17 as H
+            differs = False
+            for iff in H.in_true_branch(ns, _stmt_of(ns, c), m):
+                for cmp_ in ast.walk(iff.test):
+                    if isinstance(cmp_, ast.Compare) and len(cmp_.ops) == 1 and isinstance(cmp_.ops[0], ast.NotEq):
+                        for side in (cmp_.left, cmp_.comparators[0]):
+                            if isinstance(side, ast.Name) and p in looked.get(side.id, ()):
+                                differs = True
+            if not differs:
+                continue
+            n += 1
+            if g is None:
+                g = CFG(m)
+            rb = set()
+            for nd in g.nodes:
+                if nd.kind == "stmt" and nd.ast is not None:
+                    if rebuilds([nd.ast]) == tries or any(
+                            isinstance(x, ast.Call) and isinstance(x.func, ast.Attribute) and isinstance(x.func.value, ast.Name) and x.func.value.id == "self"
+                            and x.func.attr in rebuilders for x in ast.walk(nd.ast)):
+                        rb.add(nd.id)
+            ok = bool(rb) and g.must_pass_after(g.node_of(c, ns), rb, skip_exc=True)
+            rep.ob(RID, ns, "NamespaceManager." + mn, c, ok,
+                   "followed on every path by a rebuild of %s" % sorted(tries) if ok else
+                   "the prefix %s is taken away from its namespace here and the trie (%s) is not rebuilt afterwards: the namespace that lost its prefix still wins the "
+                   "longest-namespace lookup in compute_qname" % (p, ", ".join(sorted(tries))), node=c)
+    if n == 0:
+        raise AnalysisError("NamespaceManager: no Store.bind call under a `current namespace != new namespace` test found")
+
+
+def _stmt_of(mod, node: ast.AST) -> ast.AST:
+    if isinstance(node, ast.stmt):
+        return node
+    for p in mod.parents(node):
+        if isinstance(p, ast.stmt):
+            return p
+    return node
+
+
+def rule_s_pname_sanitised(repo: Repo, rep: Report) -> None:
+    """(s) the functions that write an N3/Turtle prefixed name from compute_qname() sanitise the local part alike"""
+    from vlib import h_c17 as H
+
+    RID = "C17.s-n3-prefixed-name-local-part-sanitised-alike"
+    rep.rule(RID,
+             "TurtleSerializer.getQName, LongTurtleSerializer.getQName and NamespaceManager.normalizeUri (URIRef.n3(namespace_manager)) all turn compute_qname()'s "
+             "(prefix, namespace, local) into a Turtle prefixed name; each applies to the local part every character escape (.replace(c, esc)) and every "
+             "`endswith(c)` -> not-a-prefixed-name test that the Turtle serializer applies. compute_qname allows '(', ')' and a trailing '.' in a local part; "
+             "unescaped, URIRef('http://e/f(x)').n3(nm) = 'p:f(x)' and 'p:v1.' do not read back as the IRI", floor=6)
+    sites = [("rdflib.plugins.serializers.turtle", "TurtleSerializer.getQName"), ("rdflib.plugins.serializers.longturtle", "LongTurtleSerializer.getQName"),
+             ("rdflib.namespace", "NamespaceManager.normalizeUri")]
+    facts = {}
+    for mname, q in sites:
+        mod = repo.mod(mname)
+        fn = mod.func(q)
+        rep.analysed("%s:%s" % (mod.rel, q))
+
+        def is_src(e: ast.AST) -> bool:
+            return isinstance(e, ast.Call) and isinstance(e.func, ast.Attribute) and e.func.attr == "compute_qname"
+
+        if not any(is_src(x) for x in own_nodes(fn)):
+            raise AnalysisError("%s does not call compute_qname any more" % q)
+        der = H.derived_names(fn, is_src)
+
+        def root(e: ast.AST) -> ast.AST:
+            while True:
+                if isinstance(e, ast.Call) and isinstance(e.func, ast.Attribute):
+                    e = e.func.value
+                elif isinstance(e, (ast.Attribute, ast.Subscript)):
+                    e = e.value
+                else:
+                    return e
+
+        reps, ends = set(), set()
+        for c in own_nodes(fn):
+            if isinstance(c, ast.Call) and isinstance(c.func, ast.Attribute) and isinstance(root(c.func.value), ast.Name) and root(c.func.value).id in der:
+                if c.func.attr == "replace" and len(c.args) == 2 and all(isinstance(a, ast.Constant) and isinstance(a.value, str) for a in c.args):
+                    reps.add((c.args[0].value, c.args[1].value))
+                if c.func.attr == "endswith" and len(c.args) == 1 and isinstance(c.args[0], ast.Constant) and any(
+                        isinstance(p, ast.If) and any(c is x for x in ast.walk(p.test)) for p in mod.parents(c)):
+                    ends.add(c.args[0].value)
+        facts[q] = (mod, fn, reps, ends)
+    ref_q = sites[0][1]
+    _, _, rreps, rends = facts[ref_q]
+    if len(rreps) < 2 or not rends:
+        raise AnalysisError("%s: the escapes of the local part were not recognised (%s, %s)" % (ref_q, sorted(rreps), sorted(rends)))
+    want_r = set().union(*[f[2] for f in facts.values()])
+    want_e = set().union(*[f[3] for f in facts.values()])
+    for q, (mod, fn, reps, ends) in facts.items():
+        for pair in sorted(want_r):
+            ok = pair in reps
+            rep.ob(RID, mod, q, "local part: %r -> %r" % pair, ok, "escaped as in the sibling functions" if ok else
+                   "%r in the local part is not escaped to %r here, as %s does: the prefixed name written does not read back as the same IRI" % (pair[0], pair[1], ref_q), node=fn)
+        for e in sorted(want_e):
+            ok = e in ends
+            rep.ob(RID, mod, q, "local part ending with %r is not written as a prefixed name" % e, ok, "tested as in the sibling functions" if ok else
+                   "a local part ending with %r is still written as a prefixed name here (%s falls back to the IRI form): 'p:v1.' reads back as p:v1 followed by '.'" % (e, ref_q), node=fn)
+
+
+def run(repo: Repo, rep: Report) -> None:  # noqa: F811
+    _run_base3(repo, rep)
+    rule_k_prefix_identity(repo, rep)
+    rule_l_override_false(repo, rep)
+    rule_m_memo_validated(repo, rep)
+    rule_n_wrapper_shares_manager(repo, rep)
+    rule_o_shortcut(repo, rep)
+    rule_p_xml_names_declared(repo, rep)
+    rule_q_no_hardwired_prefix(repo, rep)
+    rule_r_unbinding_rebuilds_trie(repo, rep)
+    rule_s_pname_sanitised(repo, rep)
 
 
 _run_before_borrow = run
